@@ -29,6 +29,12 @@ def check(tier):
     cfg3 = e1.Config(PROP, alphabet(narrow), depth + 2, [], [oracles.c05_value], split=2)
     e1.run(cfg3, rep3)
     _fold(rep, rep3, "narrow")
+    # objects with state: NEWOBJ/REDUCE + BUILD need 5-6 symbols
+    rep5 = Report(PROP, tier)
+    objn = "NONE K1 STR ETUP EDICT T1 NEWOBJ REDUCE BUILD SETITEM MEMOIZE BINGET0 POP".split()
+    cfg5 = e1.Config(PROP, alphabet(objn, [G("m", "C")]), depth + 2, [], [oracles.c05_value], split=2)
+    e1.run(cfg5, rep5)
+    _fold(rep, rep5, "objnarrow")
     rep4 = Report(PROP, tier)
     ctx = alphabet("NONE K1 STR MARK TUPLE ETUP EDICT ELIST ESET POP".split(), [G("m", "C")])
     labels = {s.label for s in ctx}
